@@ -376,3 +376,20 @@ def when_matches(when, step, pre):
         else:
             raise SystemExit("unknown known-finding condition " + k)
     return True
+
+
+def cli_when_matches(when, rec):
+    """known_findings.json conditions for records of the CLI adapter"""
+    for k, v in when.items():
+        if k == "cli_kind":
+            if rec.get("kind") != v:
+                return False
+        elif k == "cli_cmd_in":
+            if rec.get("cmd") not in v:
+                return False
+        elif k == "note_contains":
+            if v not in (rec.get("note") or ""):
+                return False
+        else:
+            return False
+    return True
